@@ -104,10 +104,7 @@ pub open spec fn u_expected(t: Seq<Seq<u8>>, a: int, e: int, v: UView) -> bool {
 pub open spec fn u_wf(v: UView) -> bool {
     &&& strictly_sorted(v.attrs)
     &&& forall|i: int| 0 <= i < v.attrs.len() ==> is_utype(#[trigger] v.attrs[i]) && lower(v.attrs[i]) == v.attrs[i]
-    &&& forall|k: tinystr::TinyAsciiStr<4>| v.kw.contains_key(k) ==> is_ukey(text(k)) && lower(text(k)) == text(k)
-    &&& forall|k: tinystr::TinyAsciiStr<4>, i: int| v.kw.contains_key(k) && 0 <= i < v.kw[k].len() ==> {
-            let x = #[trigger] v.kw[k][i];
-            is_utype(x) && lower(x) == x && x != true_word() }
+    &&& kv_wf(v.kw, true)
 }
 
 // ---------------------------------------------------------------------------------------
@@ -149,12 +146,7 @@ pub open spec fn t_expected(t: Seq<Seq<u8>>, v: TView) -> bool {
     &&& v.has_lang ==> lid_expected(t, v.lang)
     &&& v.fields == kv_fold(t, t_f0(t), t_end(t), false)
 }
-pub open spec fn t_wf(v: TView) -> bool {
-    &&& forall|k: tinystr::TinyAsciiStr<4>| v.fields.contains_key(k) ==> is_tkey(text(k)) && lower(text(k)) == text(k)
-    &&& forall|k: tinystr::TinyAsciiStr<4>, i: int| v.fields.contains_key(k) && 0 <= i < v.fields[k].len() ==> {
-            let x = #[trigger] v.fields[k][i];
-            is_utype(x) && lower(x) == x && x != true_word() }
-}
+pub open spec fn t_wf(v: TView) -> bool { kv_wf(v.fields, false) }
 
 // ---------------------------------------------------------------------------------------
 // -x- : everything to the end, each 1-8 alphanumerics
@@ -370,4 +362,60 @@ pub proof fn lemma_t_end_bounds(t: Seq<Seq<u8>>)
         lemma_var_run_bounds(t, var_pos(t));
     }
     if t_has_fields(t) { lemma_tf_end_bounds(t, t_f0(t)); }
+}
+
+pub proof fn lemma_tiny_text_all<const N: usize>()
+    ensures forall|t: tinystr::TinyAsciiStr<N>| tiny::<N>(#[trigger] text(t)) == t,
+{
+    assert forall|t: tinystr::TinyAsciiStr<N>| tiny::<N>(#[trigger] text(t)) == t by { lemma_tiny_text::<N>(t); }
+}
+pub proof fn lemma_kv_wf_remove_all(mode: bool)
+    ensures forall|m: Map<tinystr::TinyAsciiStr<4>, Seq<Seq<u8>>>, k: tinystr::TinyAsciiStr<4>|
+        kv_wf(m, mode) ==> kv_wf(#[trigger] m.remove(k), mode),
+{
+    assert forall|m: Map<tinystr::TinyAsciiStr<4>, Seq<Seq<u8>>>, k: tinystr::TinyAsciiStr<4>|
+        kv_wf(m, mode) implies kv_wf(#[trigger] m.remove(k), mode) by {
+        let nm = m.remove(k);
+        assert forall|kk: tinystr::TinyAsciiStr<4>, i: int| nm.contains_key(kk) && 0 <= i < nm[kk].len() implies
+            is_utype(#[trigger] nm[kk][i]) && lower(nm[kk][i]) == nm[kk][i] && nm[kk][i] != true_word() by {
+            assert(m.contains_key(kk) && nm[kk] == m[kk]);
+        }
+    }
+}
+
+/// membership in a vector of TinyStr == membership of the text among the texts
+pub proof fn lemma_texts_contains_all<const N: usize>()
+    ensures forall|s: Seq<tinystr::TinyAsciiStr<N>>, x: tinystr::TinyAsciiStr<N>| #[trigger] s.contains(x) <==> texts::<N>(s).contains(text(x)),
+{
+    broadcast use axiom_text_injective;
+    assert forall|s: Seq<tinystr::TinyAsciiStr<N>>, x: tinystr::TinyAsciiStr<N>| #[trigger] s.contains(x) <==> texts::<N>(s).contains(text(x)) by {
+        if s.contains(x) {
+            let i = choose|i: int| 0 <= i < s.len() && s[i] == x;
+            assert(texts::<N>(s)[i] == text(x));
+        }
+        if texts::<N>(s).contains(text(x)) {
+            let i = choose|i: int| 0 <= i < texts::<N>(s).len() && texts::<N>(s)[i] == text(x);
+            assert(text(s[i]) == text(x));
+            assert(s[i] == x);
+        }
+    }
+}
+pub proof fn lemma_strict_sorted_by_ord<const N: usize>(s: Seq<tinystr::TinyAsciiStr<N>>)
+    requires strictly_sorted(texts::<N>(s)),
+    ensures sorted_by_ord(s),
+{
+    axiom_tiny_ord::<N>();
+    assert forall|i: int, j: int| 0 <= i <= j < s.len() implies ord_le(#[trigger] s[i], #[trigger] s[j]) by {
+        if i == j { lemma_lex_le_refl(text(s[i])); }
+        else { assert(lex_lt(texts::<N>(s)[i], texts::<N>(s)[j])); }
+    }
+}
+pub proof fn lemma_weak_sorted_by_ord<const N: usize>(s: Seq<tinystr::TinyAsciiStr<N>>)
+    requires weakly_sorted(texts::<N>(s)),
+    ensures sorted_by_ord(s),
+{
+    axiom_tiny_ord::<N>();
+    assert forall|i: int, j: int| 0 <= i <= j < s.len() implies ord_le(#[trigger] s[i], #[trigger] s[j]) by {
+        assert(lex_le(texts::<N>(s)[i], texts::<N>(s)[j]));
+    }
 }
